@@ -173,3 +173,51 @@ pub fn pad(
     }
     (oa, la, la + a.len(), ob, lb, lb + b.len())
 }
+
+/// Long "runny" integer pairs: 100-400 items made of runs of repeated values over a tiny
+/// alphabet, the second sequence derived from the first by a few single-item edits that prefer
+/// run boundaries (the shapes on which clean-up slides and merges a lot).
+pub fn runny_ints(rng: &mut Rng) -> Pair {
+    let k = rng.range(2, 4) as u32;
+    let lens = [1usize, 1, 1, 2, 3, 5, 17, 18, 24, 40];
+    let target = rng.range(100, 400);
+    let mut a: Vec<u32> = vec![];
+    let mut bounds: Vec<usize> = vec![0];
+    let mut last = u32::MAX;
+    while a.len() < target {
+        let mut sy = rng.below(k as usize) as u32;
+        if sy == last {
+            sy = (sy + 1) % k;
+        }
+        last = sy;
+        for _ in 0..lens[rng.below(lens.len())] {
+            a.push(sy);
+        }
+        bounds.push(a.len());
+    }
+    let mut b = a.clone();
+    for _ in 0..rng.range(1, 5) {
+        if b.is_empty() {
+            break;
+        }
+        let p = if rng.chance(2, 3) { (*rng.pick(&bounds)).min(b.len()) } else { rng.below(b.len() + 1) };
+        match rng.below(4) {
+            0 if p < b.len() => {
+                b.remove(p);
+            }
+            1 if p < b.len() => {
+                let v = b[p];
+                b.insert(p, v);
+            }
+            2 if p > 0 => {
+                b.remove(p - 1);
+            }
+            _ => b.insert(p, rng.below(k as usize + 1) as u32),
+        }
+    }
+    if rng.chance(1, 2) {
+        (a, b)
+    } else {
+        (b, a)
+    }
+}
